@@ -6,6 +6,7 @@ import (
 	"fmt"
 	"hash/fnv"
 	"io"
+	"math"
 	"reflect"
 	"sort"
 	"strings"
@@ -41,6 +42,7 @@ type PNode struct {
 	Fold   string   // sum min max xor
 	Ctx    bool     // user function takes a context and increments a metrics counter
 	Path   string   // cache prefix
+	Vals   []uint64 // Op=="keys": explicit key values (see keyFromBits); the last column is int64(1)
 }
 
 // FailSpec scripts a user-function failure (C06).
@@ -167,6 +169,14 @@ func cellStr(v any) string {
 		sort.Strings(ks)
 		return fmt.Sprintf("{%v %v}", ks, x.L)
 	case float64:
+		if x == 0 {
+			return "0" // +0 and -0 are the same key; which representative is emitted is unspecified
+		}
+		return fmt.Sprintf("%v", x)
+	case float32:
+		if x == 0 {
+			return "0"
+		}
 		return fmt.Sprintf("%v", x)
 	}
 	rv := reflect.ValueOf(v)
@@ -263,6 +273,21 @@ func partitionOf(n *PNode, in row, nshard int) int {
 
 // sourceRows are the rows of shard s of a source node (readerfunc/scanreader semantic) or all rows (const).
 func sourceRows(n *PNode, shard int) []row {
+	if n.Op == "keys" {
+		rows := make([]row, len(n.Vals))
+		for i, v := range n.Vals {
+			r := make(row, len(n.Out))
+			for j, k := range n.Out {
+				if j == len(n.Out)-1 {
+					r[j] = int64(1)
+				} else {
+					r[j] = keyFromBits(k, v/pow7[j])
+				}
+			}
+			rows[i] = r
+		}
+		return rows
+	}
 	cnt := n.Rows
 	rows := make([]row, cnt)
 	for i := range rows {
@@ -461,7 +486,7 @@ func BuildSlice(sp Spec, args []bigslice.Slice) bigslice.Slice {
 		switch n.Op {
 		case "arg":
 			built[ni] = args[n.Arg]
-		case "const":
+		case "const", "keys":
 			rows := sourceRows(n, 0)
 			cols := make([]interface{}, len(n.Out))
 			for j := range n.Out {
@@ -734,3 +759,76 @@ var ProgFunc = bigslice.Func(func(sp Spec, a, b bigslice.Slice) bigslice.Slice {
 
 // ProgFuncExclusive is ProgFunc marked exclusive.
 var ProgFuncExclusive = ProgFunc.Exclusive()
+
+var pow7 = []uint64{1, 7, 49, 343}
+
+var floatSpecials = []float64{0, math.Copysign(0, -1), 1, -1, math.Inf(1), math.Inf(-1), math.SmallestNonzeroFloat64, -math.SmallestNonzeroFloat64, math.MaxFloat64, 0.1, 1e-310}
+var stringSpecials = []string{"", "a", "b", "ab", "ba", "a\x00", "\x00a", "aa", "Ünï", "\xff\xfe", strings.Repeat("k", 300)}
+
+// keyFromBits maps a number to a key value: small numbers select boundary values, the
+// rest are spread over the type's range.
+func keyFromBits(kind string, b uint64) any {
+	mix := b * 0x9E3779B97F4A7C15
+	switch kind {
+	case "uint8":
+		return uint8(b)
+	case "int8":
+		return int8(b)
+	case "uint16":
+		return uint16(b)
+	case "int16":
+		return int16(b)
+	case "bool":
+		return b&1 == 1
+	case "uint32":
+		return uint32(pick64(b, mix))
+	case "int32":
+		return int32(pick64(b, mix))
+	case "uint64":
+		return pick64(b, mix)
+	case "int64":
+		return int64(pick64(b, mix))
+	case "int":
+		return int(pick64(b, mix))
+	case "uint":
+		return uint(pick64(b, mix))
+	case "float64":
+		if b < uint64(len(floatSpecials)) {
+			return floatSpecials[b]
+		}
+		f := math.Float64frombits(mix)
+		if f != f {
+			return float64(b)
+		}
+		return f
+	case "float32":
+		if b < uint64(len(floatSpecials)) {
+			return float32(floatSpecials[b])
+		}
+		f := math.Float32frombits(uint32(mix >> 16))
+		if f != f {
+			return float32(b)
+		}
+		return f
+	case "string":
+		if b < uint64(len(stringSpecials)) {
+			return stringSpecials[b]
+		}
+		return fmt.Sprintf("k%d", b)
+	case "bytes":
+		if b < uint64(len(stringSpecials)) {
+			return []byte(stringSpecials[b])
+		}
+		return []byte(fmt.Sprintf("k%d", b))
+	}
+	panic("keyFromBits: " + kind)
+}
+
+var intBoundaries = []uint64{0, 1, 2, 127, 128, 255, 256, 32767, 32768, 65535, 65536, 1<<31 - 1, 1 << 31, 1<<32 - 1, 1 << 32, 1<<63 - 1, 1 << 63, ^uint64(0), ^uint64(0) - 1}
+
+func pick64(b, mix uint64) uint64 {
+	if b < uint64(len(intBoundaries)) {
+		return intBoundaries[b]
+	}
+	return mix
+}
